@@ -211,9 +211,9 @@ def main():
         "property_id": pid, "tier": tier, "seed": seed, "level": "other",
         "coverage": {
             "explanation": spec["explanation"],
-            "evaluations": tot["queries"],
+            "evaluations": tot["queries"] + tot["paths"],
             "distinct_nontrivial": tot["nontrivial"],
-            "rule": "evaluations = SMT queries discharged (branch feasibility, assertion, enumeration); "
+            "rule": "evaluations = SMT queries discharged (branch feasibility, assertion, enumeration) + complete path executions of the harness by the symbolic engine; "
                     "distinct_nontrivial = distinct feasible complete paths of the harnesses whose path "
                     "condition contains at least one solver-decided symbolic decision; each path stands "
                     "for every input satisfying its path condition",
